@@ -211,9 +211,13 @@ class ReadElementStatus(SCSICommand):
                 _r += _rr
                 if _esp["pvoltag"]:
                     _rr = bytearray(36)
+                    _tag = _ed.get("primary_volume_tag", b"")[:36]
+                    _rr[: len(_tag)] = _tag
                     _r += _rr
                 if _esp["avoltag"]:
                     _rr = bytearray(36)
+                    _tag = _ed.get("alternate_volume_tag", b"")[:36]
+                    _rr[: len(_tag)] = _tag
                     _r += _rr
                 _rr = bytearray(4)
                 _r += _rr
